@@ -39,7 +39,23 @@ def _validation_loop(ctx):
     val = [s for s in body if isinstance(s, ast.For) and norm(s.iter) == "target.nodes"]
     if len(val) != 1:
         raise AnalysisError("validation loop over target.nodes not found")
-    return fn, val[0]
+    lp = val[0]
+    if isinstance(lp.target, ast.Name) and lp.target.id != "node":
+        # the rules below name the loop variable `node`: alpha-rename a copy of the loop
+        from ..normalise import clone
+        old = lp.target.id
+        if any(isinstance(n, ast.Name) and n.id == "node" for n in ast.walk(lp)):
+            raise AnalysisError("validation loop: both `node` and another loop variable in use")
+        lp2 = clone(lp)
+        for n in ast.walk(lp2):
+            if isinstance(n, ast.Name) and n.id == old:
+                n.id = "node"
+        for n in ast.walk(lp2):
+            for ch in ast.iter_child_nodes(n):
+                ch._parent = n
+        lp2._parent = getattr(lp, "_parent", None)
+        lp = lp2
+    return fn, lp
 
 
 def _isinstance_classes(test, var):
@@ -61,7 +77,7 @@ def r1_coverage(ctx):
         att |= _isinstance_classes(i.test, "node")
     val_opts = [i for i in loop.body if isinstance(i, ast.If) and any("validate_options" in norm(x) for x in ast.walk(i))]
     vset = _isinstance_classes(val_opts[0].test, "node") if val_opts else set()
-    ctx.check(bool(att) and att <= vset, DIP, "DIP.parse", "options: every node kind that can carry options is validated", detail={"attach": sorted(att), "validate": sorted(vset)})
+    ctx.form(bool(att) and att <= vset, DIP, "DIP.parse", "options: every node kind that can carry options is validated", detail={"attach": sorted(att), "validate": sorted(vset)})
     # condition
     cn = ctx.fn(ND + "node_condition.py", "ConditionNode.parse")
     restricted = [norm(i.test) for i in ast.walk(cn) if isinstance(i, ast.If) and any(isinstance(r, ast.Raise) for r in i.body)]
@@ -79,9 +95,24 @@ def r1_coverage(ctx):
     fm = ctx.fn(ND + "node_format.py", "FormatNode.parse")
     fatt = [norm(i.test) for i in ast.walk(fm) if isinstance(i, ast.If) and any(isinstance(r, ast.Raise) for r in i.body)]
     fval = [i for i in loop.body if isinstance(i, ast.If) and "node.format" in norm(i.test)]
-    ok = len(fatt) == 1 and fatt[0].endswith(".keyword != 'str'") and len(fval) == 1 and norm(fval[0].test) == "node.keyword == 'str' and node.format"
-    ctx.check(ok, DIP, "DIP.parse", "format: attachable to strings only, validated for every string that has one", detail={"attach": fatt, "validate": [norm(i.test) for i in fval]},
-              expected={"attach": "keyword != 'str' -> raise", "validate": "node.keyword == 'str' and node.format"})
+    # the guard of the format validation as a truth table over (string node?, has a format?)
+    from ..flowexpr import truth as _truth
+    table = {}
+    if len(fval) == 1:
+        for is_str in (True, False):
+            for has in (True, False):
+                table[(is_str, has)] = _truth(fval[0].test, lambda e, _s=is_str, _h=has: {"node.keyword == 'str'": _s, "node.keyword != 'str'": not _s,
+                                                                                           "node.format": _h, "node.format is not None": _h, "node.format is None": not _h,
+                                                                                           "isinstance(node, StringNode)": _s}.get(norm(e)))
+    if len(fatt) != 1 or len(fval) != 1 or any(v is None for v in table.values()):
+        ctx.unrecognised(DIP, "DIP.parse", "format: attachable to strings only, validated for every string that has one",
+                         f"attach guard {fatt} / validation guard {[norm(i.test) for i in fval]} not interpreted")
+    else:
+        runs_in_body = any(isinstance(c, ast.Call) and dotted_name(c.func) == "re.match" for x in fval[0].body for c in ast.walk(x))
+        want = {(True, True): runs_in_body, (True, False): not runs_in_body, (False, True): not runs_in_body, (False, False): not runs_in_body}
+        ctx.check(fatt[0].endswith(".keyword != 'str'") and table == want, DIP, "DIP.parse", "format: attachable to strings only, validated for every string that has one",
+                  detail={"attach": fatt, "validate": [norm(i.test) for i in fval], "runs for (string, has format)": {str(k): v for k, v in table.items()}},
+                  expected={"attach": "keyword != 'str' -> raise", "validate": "node.keyword == 'str' and node.format"})
     if fval:
         m = [c for c in ast.walk(fval[0]) if isinstance(c, ast.Call) and dotted_name(c.func) == "re.match"]
         ok = len(m) == 1 and [norm(a) for a in m[0].args] == ["node.format", "node.value.value"] and any(isinstance(r, ast.Raise) for r in ast.walk(fval[0]))
@@ -220,7 +251,7 @@ def r5_dimension_bounds(ctx):
         for c in ast.walk(i.test):
             if isinstance(c, ast.Compare) and len(c.ops) == 1 and norm(c.left) == "shape" and norm(c.comparators[0]) in ("dim[0]", "dim[1]"):
                 got[norm(c.comparators[0])] = type(c.ops[0]).__name__
-    ctx.check(got == {"dim[0]": "Lt", "dim[1]": "Gt"}, NB, "BaseNode.cast_value", "bounds: extent < minimum and extent > maximum are errors (bounds inclusive)",
+    ctx.form(got == {"dim[0]": "Lt", "dim[1]": "Gt"}, NB, "BaseNode.cast_value", "bounds: extent < minimum and extent > maximum are errors (bounds inclusive)",
               detail=got, expected={"dim[0]": "Lt", "dim[1]": "Gt"})
     mv = ctx.fn(NB, "BaseNode.modify_value")
     ctx.form("self.cast_value(node.value_raw)" in norm(mv), NB, "BaseNode.modify_value", "modifications are cast (and bounds-checked) by the same function")
